@@ -23,20 +23,23 @@
                                                                        + buffered_events_within_interest, registered_objects_alive,
                                                                        pooled_clients_have_callback_objects
                                                                        (Poll::set/remove prune the buffered events)
-   every dispatched event kind is one the socket is registered for     dispatch_kind_registered, connect_dispatch_registered
+   every dispatched event kind is one the socket is registered for     dispatch_kind_registered (onRead, the send of the backlog, accept),
+                                                                       write_dispatch_registered (onWrite), connect_dispatch_registered
    a failed read or write is followed by onClosed                      failed_io_followed_by_onClosed, loop_send_failure_closes_at_once
-   interrupt() makes the current or next run() return ...              interrupted_wait_is_last  (+ run_returns_or_runs_out_of_fuel)
+   interrupt() makes the current or next run() return ...              interrupted_wait_is_last
    ... which never returns otherwise                                   run_returns_only_after_interrupt
-   every ready registered socket is eventually dispatched              eventual_dispatch_partial_buffered, eventual_dispatch_partial_head
+   every ready registered socket is eventually dispatched              eventual_dispatch_partial_buffered, eventual_dispatch_partial_progress
                                                                        (PARTIAL: see below)
 
    PARTIAL / not proved here:
    * eventual dispatch (liveness) is proved only up to the kernel: a reported registered socket enters the buffer
-     (eventual_dispatch_partial_buffered) and the buffer is served head first, one event per loop iteration, without
-     waiting (eventual_dispatch_partial_head).  Assumed: the (level-triggered) epoll keeps reporting a ready socket and
-     the event descriptor; at most 63 sockets per epoll_wait.  Not proved: that buffered entries only move towards the
-     head (they do: set/remove only delete or shrink entries), and termination of the timer and closing phases
-     (needs intervals > 0 and finite callback scripts) - in the model a non-terminating run ends as [stuck].
+     (eventual_dispatch_partial_buffered); in every iteration of the loop the timer and closing phases and the dispatched
+     callbacks only delete entries from the buffer or shrink them in place (order kept), and Poll::poll serves the head of
+     what is left without asking the kernel (eventual_dispatch_partial_progress): a buffered entry that is not deleted (socket
+     removed / interest withdrawn) strictly moves towards the head and is served.  Assumed: the (level-triggered) epoll keeps
+     reporting a ready socket and the event descriptor; at most 63 sockets per epoll_wait.  Not proved: termination of the
+     timer and closing phases (needs intervals > 0 and finite callback scripts) - in the model a non-terminating run ends as
+     [stuck]; that run_loop ends only by EvRunRet or by running out of fuel is the supporting lemma run_returns_or_stuck.
    * "interrupt() makes the current or next run() return" is the safety half: once an interrupt is pending the next wait
      of the loop is its last action before run() returns.  That the loop reaches that wait is the termination question above.
    * equal due times: activations are in order of due time; that timers with EQUAL due times fire in insertion order is
@@ -48,7 +51,7 @@
    * timer_wait_not_past_due is relative to the clock value the loop sampled at the start of the iteration: time spent inside
      callbacks of that iteration is not accounted for (neither by the code nor by the clause).  *)
 From Coq Require Import ZArith List Bool.
-From ServerLoop Require Import ServerLoopSpec ServerLoopModel ServerLoopInv ServerLoopCb ServerLoopCplC ServerLoopDerived.
+From ServerLoop Require Import ServerLoopSpec ServerLoopModel ServerLoopInv ServerLoopCb ServerLoopBuf ServerLoopCplC ServerLoopDerived.
 Import ListNotations.
 Local Open Scope Z_scope.
 
@@ -92,6 +95,12 @@ Theorem dispatch_kind_registered : forall fuel ops later x earlier e p,
 Proof. exact model_dispatch_registered. Qed.
 Print Assumptions dispatch_kind_registered.
 
+Theorem write_dispatch_registered : forall fuel ops later i c earlier,
+  trace (steps fuel init ops) = later ++ EvCb (Cl i) KWrite c :: earlier ->
+  exists mask rest, earlier = EvCtl CMod (Cl i) mask :: rest /\ exists old, reg_of (Cl i) rest = Some old /\ has_out old = true.
+Proof. exact model_write_dispatch. Qed.
+Print Assumptions write_dispatch_registered.
+
 Theorem connect_dispatch_registered : forall fuel ops later i err earlier,
   trace (steps fuel init ops) = later ++ EvSoErr i err :: earlier ->
   exists mask rest, earlier = EvCtl CDel (Es i) mask :: rest /\ exists old, reg_of (Es i) rest = Some old /\ has_out old = true.
@@ -121,21 +130,20 @@ Theorem interrupted_wait_is_last : forall fuel ops rest y q t earlier,
 Proof. exact model_interrupted_wait_is_last. Qed.
 Print Assumptions interrupted_wait_is_last.
 
-Theorem run_returns_or_runs_out_of_fuel : forall fuel items s,
-  stuck (run_loop fuel items s) = true \/ exists tr', trace (run_loop fuel items s) = EvRunRet :: tr'.
-Proof. exact run_returns_or_stuck. Qed.
-Print Assumptions run_returns_or_runs_out_of_fuel.
-
 Theorem eventual_dispatch_partial_buffered : forall e g r s,
   alookup ent_eqb e (socks s) = Some g -> In e (map fst r) ->
   exists n, In (e, n) r /\ alookup ent_eqb e (selected (absorb r s)) = Some (unmap_events n g).
 Proof. exact reported_socket_is_buffered_partial. Qed.
 Print Assumptions eventual_dispatch_partial_buffered.
 
-Theorem eventual_dispatch_partial_head : forall t items e f r s,
-  selected s = (e, f) :: r -> poll t items s = (set_selected r s, Some (e, f), items).
-Proof. exact buffered_head_is_delivered_partial. Qed.
-Print Assumptions eventual_dispatch_partial_head.
+Theorem eventual_dispatch_partial_progress : forall fuel now t items s,
+  let s1 := closing_phase fuel (timer_phase fuel now s) in
+  sublist (skeys s1) (skeys s) /\
+  forall e f r, selected s1 = (e, f) :: r ->
+    poll t items s1 = (set_selected r s1, Some (e, f), items) /\
+    sublist (skeys (dispatch e f (set_selected r s1))) (map fst r).
+Proof. exact buffer_progress. Qed.
+Print Assumptions eventual_dispatch_partial_progress.
 
 Theorem structural_invariant_reachable : forall fuel ops, SInv (steps fuel init ops).
 Proof. exact SInv_reachable. Qed.
@@ -155,11 +163,12 @@ Definition demo : list op :=
     OOn (mkSe (Cl 1) (SCb KClosed) 0 false [ARmClient 1]);
     OOn (mkSe (Cl 2) (SCb KClosed) 0 false [ARmClient 2]);
     OOn (mkSe (Li 0) (SIn KAccepted) 5 true [AInterrupt]);
+    OOn (mkSe (Li 0) (SIn KAccepted) 7 true [ARead 7; ARmClient 7; AWrite 7 1]);
     OOn (mkSe (Es 0) (SIn KConnected) 6 false [ARmEstab 0]);
     ORun [ mkEp 5 [];
            mkEp 0 [(Cl 2, nb false true false false false); (Cl 1, nb true true false false false);
                    (Li 0, nb true false false false false); (Es 0, nb false true false false false)];
-           mkEp 0 [(Cl 1, nb true false false false false)]; mkEp 1 [] ];
+           mkEp 0 [(Cl 1, nb true false false false false); (Li 0, nb true false false false false)]; mkEp 1 [] ];
     OAct AInterrupt; ORun [mkEp 7 []] ].
 Definition demo_log := trace (steps 200 init demo).
 Definition has (p : ev -> bool) := existsb p demo_log.
@@ -169,6 +178,20 @@ Example demo_accepted : accepts demo_log = true. Proof. vm_compute. reflexivity.
 Example demo_has_activations : length (filter (fun x => match x with EvAct _ _ _ => true | _ => false end) demo_log) = 2%nat.
 Proof. vm_compute. reflexivity. Qed.
 Example demo_has_timer_removal : has (fun x => gone (Tm 2) x) = true. Proof. vm_compute. reflexivity. Qed.
+Example demo_has_deferred_removal : has (fun x => gone (Cl 7) x) = true /\ has (fun x => match x with EvIntroRet 7 true => true | _ => false end) = true.
+Proof. vm_compute. auto. Qed.
+Example demo_has_waits_with_live_timers :
+  has (fun x => match x with EvWait t => t <? 300000 | _ => false end) = true.
+Proof. vm_compute. reflexivity. Qed.
+Example demo_has_onWrite : has (fun x => match x with EvCb (Cl _) KWrite _ => true | _ => false end) = true.
+Proof. vm_compute. reflexivity. Qed.
+Example demo_pooled_clients : length (clients (steps 200 init demo)) = 1%nat.
+Proof. vm_compute. reflexivity. Qed.
+Example demo_buffer_pruned_by_dispatch :
+  let s := fst (epoll_wait 0 [mkEp 0 [(Cl 1, nb true false false false false); (Cl 2, nb true false false false false); (Cl 3, nb true false false false false)]]
+                  (steps 10 init [OAct (APair 1); OAct (APair 2); OAct (APair 3); OOn (mkSe (Cl 1) (SCb KRead) 0 false [ARmClient 2])])) in
+  skeys s = [Cl 1; Cl 2; Cl 3] /\ skeys (dispatch (Cl 1) fl_R (set_selected (tl (selected s)) s)) = [Cl 3].
+Proof. vm_compute. auto. Qed.
 Example demo_has_client_removal : has (fun x => gone (Cl 1) x) = true /\ has (fun x => gone (Cl 6) x) = true /\ has (fun x => gone (Es 0) x) = true.
 Proof. vm_compute. auto. Qed.
 Example demo_has_dispatches :
